@@ -37,10 +37,17 @@ def setAttr {α} (neg : α → α) (d : Dict α) (name : String) (v : α) : Exce
     let n := resolve name
     if symbolKeys.contains n then .ok (dictSet d n v) else .error "not_an_aberration"
 
+/-- a write as the coefficient dict sees it: a name that is neither alias nor symbol becomes an ordinary object attribute in Python
+and leaves the coefficients untouched -/
+def setAttrTotal {α} (neg : α → α) (d : Dict α) (name : String) (v : α) : Dict α :=
+  match setAttr neg d name v with
+  | .ok d' => d'
+  | .error _ => d
+
 /-- `set_aberrations(mapping)` for numeric values: `setattr(self, symbol, value)` item by item, in mapping order (the string
 "scherzer" special case is outside this model); zero values are written like any other value -/
-def setAberrations {α} (neg : α → α) (d : Dict α) (items : List (String × α)) : Except String (Dict α) :=
-  items.foldlM (fun d kv => setAttr neg d kv.1 kv.2) d
+def setAberrations {α} (neg : α → α) (d : Dict α) (items : List (String × α)) : Dict α :=
+  items.foldl (fun d kv => setAttrTotal neg d kv.1 kv.2) d
 
 /-- attribute read: the `defocus` property (`neg` = generated `defocusOfC10`), else `__getattr__` -/
 def getAttr {α} (neg : α → α) (zero : α) (d : Dict α) (name : String) : Except String α :=
